@@ -15,6 +15,7 @@ import (
 	"strings"
 	"sync"
 	"testing"
+	"testing/synctest"
 
 	"verif/kit"
 	"verif/schedx"
@@ -168,11 +169,15 @@ func (sc rtScenario) prepare() (bodies []func(), eval func(ex *schedx.Exec)) {
 	return
 }
 
-func (sc rtScenario) run(choices []int) *schedx.Exec {
-	bodies, eval := sc.prepare()
+// run executes one schedule in a fresh bubble of virtual time (signed frames
+// carry sealing timestamps: with the real clock two runs of one schedule could differ).
+func (sc rtScenario) run(t *testing.T, choices []int) *schedx.Exec {
 	ex := &schedx.Exec{}
-	ex.Res = sched.Run(bodies, choices, 20000)
-	eval(ex)
+	synctest.Test(t, func(t *testing.T) {
+		bodies, eval := sc.prepare()
+		ex.Res = sched.Run(bodies, choices, 20000)
+		eval(ex)
+	})
 	return ex
 }
 
@@ -211,7 +216,8 @@ func runRoundTripSched(t *testing.T, rep *kit.Report, env kit.Env) {
 	rep.Bounds["sched_preemption_bound"] = bound
 	top := 0
 	for _, sc := range rtScenarios(env.Thorough()) {
-		s := schedx.Scenario{Name: "concurrent/" + sc.name, Run: sc.run}
+		sc := sc
+		s := schedx.Scenario{Name: "concurrent/" + sc.name, Run: func(c []int) *schedx.Exec { return sc.run(t, c) }}
 		st := schedx.Explore(rep, env, s, bound, &top)
 		schedx.Record(rep, s, st)
 	}
